@@ -195,6 +195,8 @@ class World:
 class Interp:
     def __init__(self, world, inline=True, inline_filter=None, resolver=None):
         self.resolver = resolver
+        self.two_variant_discr = set()
+        self.discr_kind = {}
         self.in_widths = {}
         self.w = world
         self.frame_counter = 0
@@ -639,7 +641,15 @@ class Interp:
             return ("unop", rv["op"], a)
         if k == "discr":
             loc = self.place_loc(ctx, path, rv["place"])
-            return ("discr", self.read(path, loc))
+            val = self.read(path, loc)
+            try:
+                pt = ctx["fn"]["_crate"].types[rv["place"]["ty"]]
+                if pt["k"] == "adt" and pt["path"] in ("core::result::Result", "core::option::Option", "core::ops::control_flow::ControlFlow"):
+                    self.two_variant_discr.add(val)
+                    self.discr_kind[val] = "option" if pt["path"].endswith("Option") else "result"
+            except Exception:
+                pass
+            return ("discr", val)
         if k == "agg":
             ak = rv["ak"]
             ops = tuple(self.operand(ctx, path, o) for o in rv["ops"])
@@ -722,13 +732,30 @@ class Interp:
                     live.append((v, tgt))
                 for v, tgt in live:
                     p2 = path.fork() if len(live) > 1 else path
-                    self.assume_switch(p2, d, v, [a for a, _ in arms], (fn["key"], bi), blk["sp"])
+                    v2 = v
+                    if v == "otherwise" and len(arms) == 1 and arms[0][0] in (0, 1):
+                        # two-valued discriminant (bool, Option/Result/ControlFlow): the otherwise arm is the other value
+                        dpl = t["discr"].get("copy") or t["discr"].get("move")
+                        dty = ctx["fn"]["_crate"].types[dpl["ty"]] if dpl else None
+                        two = bool(dty and dty["k"] == "prim" and dty["s"] == "bool")
+                        if not two and isinstance(d, tuple) and d and d[0] == "discr":
+                            tt = d[1]
+                            kind = "branch" if (isinstance(tt, tuple) and tt and tt[0] == "branch") else type_kind_of(tt)
+                            two = kind in ("branch", "result", "option") or tt in self.two_variant_discr
+                        if two:
+                            v2 = 1 - arms[0][0]
+                    self.assume_switch(p2, d, v2, [a for a, _ in arms], (fn["key"], bi), blk["sp"])
                     self._walk(ctx, tgt, p2, visited, out)
                 return
             if k == "call":
                 nxt = self.do_call(ctx, path, t, bi, blk, visited, out)
                 if nxt is None:
                     return
+                if getattr(path, "unrolled", False):
+                    # an iterator over a literal array just yielded its next (statically known) element: this is a new,
+                    # distinct iteration of a loop with a static trip count, not a revisit
+                    path.unrolled = False
+                    visited = frozenset()
                 bi = nxt
                 continue
             if k == "tailcall":
@@ -743,6 +770,9 @@ class Interp:
                 return d[1]
             if d[0] == "discr":
                 t = d[1]
+                if isinstance(t, tuple) and t and t[0] == "from_residual":
+                    # `?` early return value: always the failure variant (Err / None)
+                    return 0 if self.discr_kind.get(t) == "option" else 1
                 ok = okness(t, path)
                 r = peel(t)
                 if isinstance(r, tuple) and r and r[0] == "agg" and r[1].startswith("adt:"):
@@ -756,7 +786,7 @@ class Interp:
                 if ok is not None and isinstance(t, tuple):
                     if t[0] == "branch":
                         return 0 if ok else 1
-                    kind = type_kind_of(t)
+                    kind = type_kind_of(t) or self.discr_kind.get(t)
                     if kind == "option":
                         return 1 if ok else 0
                     if kind == "result":
@@ -768,7 +798,7 @@ class Interp:
         if isinstance(d, tuple) and d[0] == "discr":
             t = d[1]
             r = peel(t)
-            kind = "branch" if (isinstance(t, tuple) and t[0] == "branch") else type_kind_of(t)
+            kind = "branch" if (isinstance(t, tuple) and t[0] == "branch") else (type_kind_of(t) or self.discr_kind.get(t))
             if kind == "branch" or kind == "result":
                 path.assume[r] = "ok" if v == 0 else "err"
                 if v != 0:
@@ -940,6 +970,25 @@ class Interp:
     def builtin(self, ctx, path, ce, p, rp, name, args, dest_ty, site, blk, t):
         """Interpretation of std/library plumbing. Returns NotImplemented for everything else."""
         a0 = args[0] if args else None
+        # ---- iteration over a literal array: statically known elements, unrolled
+        if rp == "core::array::iter::<impl core::iter::traits::collect::IntoIterator for [T; N]>::into_iter":
+            if isinstance(a0, tuple) and a0 and a0[0] == "agg" and a0[1] == "array" and len(a0[2]) <= 8:
+                return ("citer", a0[2], 0)
+            return NotImplemented
+        if rp == "<core::array::iter::IntoIter<T, N> as core::iter::traits::iterator::Iterator>::next" and is_ptr(a0):
+            cur = self.content(path, a0[1])
+            if isinstance(cur, tuple) and cur and cur[0] == "citer":
+                _, elems, i = cur
+                if i < len(elems):
+                    self.write(path, a0[1], ("citer", elems, i + 1))
+                    path.unrolled = True
+                    return ("agg", "adt:Option::Some", (elems[i],))
+                if i == len(elems):
+                    # first exhaustion: leaving the loop is progress too (a second None is not)
+                    self.write(path, a0[1], ("citer", elems, i + 1))
+                    path.unrolled = True
+                return ("agg", "adt:Option::None", ())
+            return NotImplemented
         # ---- try / option / result plumbing
         if p == "core::ops::try_trait::Try::branch":
             return ("branch", a0)
@@ -1221,6 +1270,8 @@ class Interp:
             if t[0] == "call" and t[1] in ("Result::map", "Option::map"):
                 inner = self.okv(ctx, path, t[2][0])
                 return self.apply_fn(path, t[2][1], inner)
+            if t[0] == "call" and len(t[2]) == 2 and re.search(r"core::num::<impl (usize|u64|u32)>::checked_(sub|add)$", t[1]):
+                return fold_binop("Sub" if t[1].endswith("sub") else "Add", self.argval(path, t[2][0]), self.argval(path, t[2][1]))
             if t[0] == "call" and t[1] == "Result::and_then":
                 inner = self.okv(ctx, path, t[2][0])
                 f = t[2][1]
